@@ -335,6 +335,12 @@ def run_parse_rules(res, ast):
                         why_t = f"the reported position is taken from `{ast.src1(IR, c_['expr'])}`, not from the top of the position stack (the innermost unclosed `[`)"
                 else:
                     cond_ok = any(pm.match_expr(c_, pt) is not None for pt in (f"{stkn_}.len() != 1", f"{stkn_}.len() > 1", f"!{posn_}.is_empty()", f"{posn_}.len() != 0", f"{posn_}.len() > 0"))
+                # a local that names the position just before the error is built
+                if path_name(strip_paren(pos_)) is not None:
+                    defs_ = [l_ for l_ in walk_t(i["then"], "Local") if l_["pat"]["t"] == "PIdent" and not l_["pat"]["mut"] and l_.get("init") is not None
+                             and l_["pat"]["name"] == path_name(strip_paren(pos_))]
+                    if len(defs_) == 1:
+                        pos_ = defs_[0]["init"]
                 p_ = strip_paren(pos_)
                 while p_["t"] == "Unary" and p_["op"] == "*":
                     p_ = strip_paren(p_["expr"])
